@@ -21,12 +21,6 @@ package userauth
 //@ func RequestAuthorization(ch *tubes.Reliable, username string) (ok bool)
 //@   property C18
 //@   ensures len(username) > 65535 ==> !ok && !called(tubes.Reliable.Write)
-//@ func (r *tubes.Reliable) Write(b []byte) (n int, err error)
-//@   assume reliable tube write (C08)
-//@   modifies opaque(r)
-//@ func (r *tubes.Reliable) Read(b []byte) (n int, err error)
-//@   assume reliable tube read (C09)
-//@   modifies b[:], opaque(r)
 //@ func io.ReadFull(r io.Reader, buf []byte) (n int, err error)
 //@   assume standard library: fills buf from r
 //@   modifies buf[:], opaque(r)
